@@ -63,7 +63,9 @@ add("C12", "exploration", "property-based testing (Hypothesis): generated exit-r
     "required, not possible, failed, raising, junk, bool, IOError). Checked on the launch history: relaunch only after a "
     "listed reason or SubmissionFailed, never after Killed/Cancelled/Success, restarts <= maximum (3 default, unlimited "
     "only for -1 or a named hook file), <=5 consecutive re-submissions, final state after a refusal and termination of "
-    "the stage loop.", _RT_NOTE + " Repeating components are not covered by this check.", "DESIGN.md section 3, C12")
+    "the stage loop. Sub-check `observer`: restart launches of a repeating component whose final execution died of "
+    "ResourceExhausted (bounded, terminating). Late-restart probe: restart() on components that already hold a final "
+    "state must not launch anything.", _RT_NOTE, "DESIGN.md section 3, C12")
 add("C08", "exploration", "property-based testing (Hypothesis): generated histories of mutator/query calls; differential "
     "oracle = FlowIRConcrete rebuilt from raw() after every step; returned configurations scribbled on",
     "State-aware generated histories (set/delete component variables and options, global/stage/platform variables, "
@@ -71,8 +73,9 @@ add("C08", "exploration", "property-based testing (Hypothesis): generated histor
     "FlowIRExperimentConfiguration.setOptionForNode/removeOptionForNode) over confusable component names; after every "
     "step every (component, platform) query must equal - value or exception class - the answer of a FlowIRConcrete "
     "rebuilt from scratch, and mutating a returned configuration in place must not change raw() or later answers.",
-    "Public mutators only, no retained return_copy=False references, declared platforms only, names in "
-    "[A-Za-z0-9_.-]+, flag combinations used by repository callers.", "DESIGN.md section 3, C08")
+    "Public mutators only, no retained return_copy=False references, declared platforms plus one platform created by "
+    "the per-platform stage setter, names in [A-Za-z0-9_.-]+, flag combinations used by repository callers.",
+    "DESIGN.md section 3, C08")
 add("C17", "exploration", "property-based testing (Hypothesis): generated packages x launch environments; independent "
     "environment model written from the statement; sentinel leak check",
     "Packages with environments on default/selected/unrelated platforms in mixed-case spellings, DEFAULTS lists, $X/${X} "
@@ -107,7 +110,9 @@ add("C13", "exploration", "property-based testing (Hypothesis): generated histor
     "kill-after delays and both producer kinds. Checked: no execution before consumable output exists, an execution that "
     "started after the last output exists before the engine stops (unless cancelled or never able to consume), it stops "
     "after the first successful post-notification execution or within retries+4 kernel invocations / before the "
-    "horizon, and ends dead with exit reason Success or ResourceExhausted.",
+    "horizon, and ends dead with exit reason Success or ResourceExhausted. One or two producers (every same-stage "
+    "producer must have output at each launch). Sub-check `wired`: real ComponentState objects (stageIn subscription to "
+    "the producers' notifyFinished) on the deterministic kernel with 2-3 subjects finishing at generated moments.",
     "Duck-typed model job (producer output answers come from generated times using the rule of "
     "Job.producersHaveOutputSinceDate); inline monitor thread, FIFO delivery of rx emissions; liveness as a virtual-time "
     "horizon.", "DESIGN.md section 3, C13")
@@ -151,7 +156,8 @@ add("C05", "exploration", "property-based testing (Hypothesis): grammar-generate
     "loopoutput, optional reload from disk, two loops interleaved incl. restart) are instantiated iteration by iteration "
     "the way the Controller does; after every step node set, per-instance references/predecessors, placeholder 'latest', "
     "currentIteration/currentCondition, DataReference.resolve() of outside references and :loopref order are compared with "
-    "an independent model. Two anchor workflows always reach k>=12.",
+    "an independent model. Two anchor workflows always reach k>=12. Sub-check `controller`: the real Controller unrolls "
+    "generated loops under the deterministic kernel with scripted condition outcomes.",
     "Letters-only non-overlapping names, non-replicated loop-binding/condition producers, disjoint stage ranges for two "
     "loops; iterations are instantiated by a driver mirroring Controller._instantiate_next_dowhile_iteration.",
     "DESIGN.md section 3, C05")
